@@ -1,6 +1,7 @@
 package sim
 
 import (
+	"bufio"
 	"bytes"
 	"fmt"
 	"io"
@@ -48,6 +49,11 @@ func c03Stream(r *Run) {
 	n := 1 + T.Draw("nframes", 40)
 	readerMode := T.Draw("reader", 3) // 0 DecodeFrame, 1 DecodeRawFrame (by declared length), 2 DecodeHeader+DecodeBody
 	big := T.Bool("big", 0.1)
+	// what the decoder reads from: 0 the connection, 1 a *bytes.Buffer holding the whole stream, 2 a
+	// *bytes.Reader holding it, 3 a bufio.Reader over the connection, 4 one *bytes.Buffer that is written
+	// and read in turns (encode a frame, decode it, encode the next)
+	source := T.DrawP("source", 5, 0.45)
+	rejects := T.Bool("rejects", 0.35) // unencodable frames are attempted in between (to a scratch destination)
 	opts := LinkOpts{
 		Capacity:   []int{1 << 20, 64, 4096, 1, 65536}[T.DrawP("capacity", 5, 0.5)],
 		Latency:    ms([]int{0, 1, 20}[T.Draw("latency", 3)]),
@@ -57,6 +63,8 @@ func c03Stream(r *Run) {
 	r.Config["compression"] = string(comp)
 	r.Config["frames"] = fmt.Sprint(n)
 	r.Config["reader"] = []string{"DecodeFrame", "DecodeRawFrame+Convert", "DecodeHeader+DecodeBody"}[readerMode]
+	r.Config["source"] = []string{"connection", "*bytes.Buffer (whole stream)", "*bytes.Reader (whole stream)", "bufio.Reader over the connection", "*bytes.Buffer written and read in turns"}[source]
+	r.Config["rejects"] = fmt.Sprint(rejects)
 	maxBytes := 2000
 	if big && opts.Capacity >= 4096 {
 		maxBytes = 300000 // with a tiny capacity every byte costs several scheduler steps: keep those runs small
@@ -77,51 +85,113 @@ func c03Stream(r *Run) {
 	var consumedAt []int64 // reader position after each decoded frame
 	var readErr error
 	writerDone, readerDone := false, false
+	// decodeOne reads one frame from src in the drawn reader mode
+	decodeOne := func(src io.Reader) (f *frame.Frame, err error) {
+		switch readerMode {
+		case 0:
+			f, err = rcodec.DecodeFrame(src)
+		case 1:
+			var raw *frame.RawFrame
+			if raw, err = rcodec.DecodeRawFrame(src); err == nil {
+				f, err = rcodec.ConvertFromRawFrame(raw)
+			}
+		default:
+			var h *frame.Header
+			if h, err = rcodec.DecodeHeader(src); err == nil {
+				var body *frame.Body
+				if body, err = rcodec.DecodeBody(h, src); err == nil {
+					f = &frame.Frame{Header: h, Body: body}
+				}
+			}
+		}
+		return
+	}
+	attemptReject := func() {
+		if !rejects || !T.Bool("reject", 0.3) {
+			return
+		}
+		bad := c03Unencodable(T, v, comp)
+		var scratch bytes.Buffer
+		if err := wcodec.EncodeFrame(bad, &scratch); err != nil {
+			r.Probes["unencodable_frame_rejected"]++
+		} else {
+			r.Probes["unencodable_frame_accepted"]++
+		}
+		r.Yield("writer.rejected")
+	}
+	var turns bytes.Buffer
+	var turnsWritten int
 	r.Go("writer", func() {
 		defer func() { writerDone = true }()
 		for _, f := range frames {
-			s := &c03Sent{f: f.DeepCopy(), kind: KindOf(f.Body.Message), start: int(a.WrittenBytes())}
+			attemptReject()
+			var dest io.Writer = a
+			pos := func() int { return int(a.WrittenBytes()) }
+			if source == 4 {
+				dest = &turns
+				pos = func() int { return turnsWritten + turns.Len() }
+			}
+			s := &c03Sent{f: f.DeepCopy(), kind: KindOf(f.Body.Message), start: pos()}
 			// encode straight onto the connection, as the client and server connections do
-			s.encErr = wcodec.EncodeFrame(f, a)
+			s.encErr = wcodec.EncodeFrame(f, dest)
 			r.Yield("writer.encoded")
-			s.end = int(a.WrittenBytes())
+			s.end = pos()
 			s.declared = f.Header.BodyLength
 			sent = append(sent, s)
 			if s.encErr != nil {
 				break
 			}
+			if source == 4 {
+				// the same buffer is now read: exactly this frame must come out and nothing must remain
+				_, _ = a.Write(turns.Bytes()) // the tap keeps the stream for the framing oracles
+				turnsWritten += turns.Len()
+				g, err := decodeOne(&turns)
+				if err != nil {
+					readErr = err
+					break
+				}
+				got = append(got, g)
+				consumedAt = append(consumedAt, int64(turnsWritten-turns.Len()))
+				if turns.Len() != 0 {
+					turns.Reset() // reported below through consumedAt; keep the following frames aligned
+				}
+			}
+		}
+		if source == 4 && readErr == nil {
+			readErr = io.EOF
 		}
 		_ = a.Close()
 	})
 	r.Go("reader", func() {
 		defer func() { readerDone = true }()
-		for {
-			var f *frame.Frame
-			var err error
-			switch readerMode {
-			case 0:
-				f, err = rcodec.DecodeFrame(b)
-			case 1:
-				var raw *frame.RawFrame
-				if raw, err = rcodec.DecodeRawFrame(b); err == nil {
-					f, err = rcodec.ConvertFromRawFrame(raw)
-				}
-			default:
-				var h *frame.Header
-				if h, err = rcodec.DecodeHeader(b); err == nil {
-					var body *frame.Body
-					if body, err = rcodec.DecodeBody(h, b); err == nil {
-						f = &frame.Frame{Header: h, Body: body}
-					}
-				}
+		var src io.Reader = b
+		consumed := func() int64 { return b.BytesRead() }
+		switch source {
+		case 1, 2, 4:
+			all, _ := io.ReadAll(b)
+			if source == 4 {
+				return // decoded in turns by the writer
 			}
+			if source == 1 {
+				buf := bytes.NewBuffer(all)
+				src, consumed = buf, func() int64 { return int64(len(all) - buf.Len()) }
+			} else {
+				rd := bytes.NewReader(all)
+				src, consumed = rd, func() int64 { return int64(len(all) - rd.Len()) }
+			}
+		case 3:
+			br := bufio.NewReaderSize(b, 16+T.Draw("bufio", 5000))
+			src, consumed = br, func() int64 { return b.BytesRead() - int64(br.Buffered()) }
+		}
+		for {
+			f, err := decodeOne(src)
 			r.Yield("reader.decoded")
 			if err != nil {
 				readErr = err
 				return
 			}
 			got = append(got, f)
-			consumedAt = append(consumedAt, b.BytesRead())
+			consumedAt = append(consumedAt, consumed())
 		}
 	})
 	if !r.Drive() {
@@ -232,4 +302,38 @@ func c03MessageLength(r *Run, f *frame.Frame, v primitive.ProtocolVersion) {
 	if l != buf.Len() {
 		r.Violate("C03", "message-length", "message-length-mismatch:"+KindOf(f.Body.Message), "%s (version %v): EncodedLength reports %d, Encode writes %d bytes", KindOf(f.Body.Message), v, l, buf.Len())
 	}
+}
+
+// c03Unencodable builds a frame that the encoder has to refuse, some of them only after part of the body
+// has been produced. What the encoder answers is not judged; the frames encoded AFTER it are.
+func c03Unencodable(T *Tape, v primitive.ProtocolVersion, comp primitive.Compression) *frame.Frame {
+	var m message.Message
+	stream := int16(T.Draw("rej.stream", 100))
+	filler := func(n int) *primitive.Value { return primitive.NewValue(bytes.Repeat([]byte{0x5a}, n)) }
+	switch T.Draw("rej.kind", 7) {
+	case 0:
+		m = &message.SetKeyspaceResult{Keyspace: ""}
+	case 1:
+		m = &message.SchemaChangeResult{ChangeType: primitive.SchemaChangeTypeCreated, Target: primitive.SchemaChangeTargetTable, Keyspace: "ks", Object: ""}
+	case 2:
+		m = &message.Execute{QueryId: nil, Options: &message.QueryOptions{}}
+	case 3:
+		m = &message.Prepare{Query: ""}
+	case 4:
+		m = &message.Query{Query: "SELECT * FROM t WHERE a = ? AND b = ?", Options: &message.QueryOptions{PositionalValues: []*primitive.Value{filler(1 + T.Draw("rej.fill", 300)), nil}}}
+	case 5:
+		m = &message.Batch{Children: []*message.BatchChild{{Query: "INSERT INTO t (a) VALUES (?)", Values: []*primitive.Value{filler(1 + T.Draw("rej.fill", 300))}}, {Query: "INSERT INTO t (a) VALUES (?)", Values: []*primitive.Value{nil}}}}
+	default:
+		m = &message.Query{Query: "SELECT 1", Options: &message.QueryOptions{}}
+		if v == primitive.ProtocolVersion2 {
+			stream = 300 // one signed byte in v2
+		} else {
+			m = &message.Query{Query: "SELECT 1", Options: &message.QueryOptions{PositionalValues: []*primitive.Value{filler(40), nil}}}
+		}
+	}
+	f := frame.NewFrame(v, stream, m)
+	if comp != primitive.CompressionNone && T.Bool("rej.compress", 0.4) {
+		f.Header.Flags = f.Header.Flags.Add(primitive.HeaderFlagCompressed)
+	}
+	return f
 }
